@@ -105,7 +105,7 @@ impl Prop for C12 {
         })
     }
     fn new_exec<'w>(&self, world: &'w World) -> Box<dyn Exec + 'w> {
-        Box::new(Exec12 { world, scanners: vec![], iters: vec![], insts: vec![], last_inst: None, switches: 0 })
+        Box::new(Exec12 { world, scanners: vec![], iters: vec![], insts: vec![], last_inst: None, switches: 0, peek_free: std::sync::atomic::AtomicU64::new(0) })
     }
     fn nontrivial(&self, marks: &BTreeSet<&'static str>) -> bool {
         marks.contains("probe.two_live_iters_two_ctx_switches")
@@ -120,7 +120,7 @@ impl Prop for C12 {
         &[
             "probe.two_live_iters_two_ctx_switches", "probe.neighbour_midstream_in_other_mode", "probe.shared_scanner",
             "probe.two_handles_one_cached_compilation", "probe.unrelated_scanners", "probe.scanner_reused_for_second_input",
-            "probe.scanner_rebuilt_while_iterators_live", "probe.near_variant_scanners", "probe.same_length_sibling_input", "probe.positions_wrapped_iterator", "probe.giant_newline_input", "probe.scanner_dropped_while_iterators_live", "probe.solo_replays",
+            "probe.scanner_rebuilt_while_iterators_live", "probe.near_variant_scanners", "probe.same_length_sibling_input", "probe.positions_wrapped_iterator", "probe.giant_newline_input", "probe.scanner_dropped_while_iterators_live", "probe.solo_replays", "probe.peek_free_replays",
             "probe.policy_uniform", "probe.policy_bursty", "probe.policy_pct", "probe.policy_round_robin",
             "fault.abandon", "fault.mode_override",
         ]
@@ -296,6 +296,8 @@ struct Exec12<'w> {
     insts: Vec<Inst>,
     last_inst: Option<usize>,
     switches: usize,
+    /// peek-free replays that compared at least one call (counted in the replay thread)
+    peek_free: std::sync::atomic::AtomicU64,
 }
 
 /// Apply one iterator operation; identical code for the interleaved run and the solo replay.
@@ -427,6 +429,29 @@ impl<'w> Exec12<'w> {
             }
             if matches!(got, Obs::Panic(_)) {
                 break;
+            }
+        }
+        // "... unaffected by peeks": the same calls with every peek left out, on another fresh
+        // iterator, up to the first call that needs a peeked match (advance_to)
+        if inst.recs.iter().any(|(_, op, _)| matches!(op, Op::PeekN { .. })) {
+            let mut f = It::new(&sc, input, inst.positions, inst.with_offset);
+            let mut lp = None;
+            let mut compared = false;
+            for (step, op, obs) in &inst.recs {
+                if matches!(op, Op::PeekN { .. }) {
+                    continue;
+                }
+                if matches!(op, Op::AdvanceToPeeked { .. }) || matches!(obs, Obs::Panic(_)) {
+                    break;
+                }
+                let Some(got) = apply(&mut f, input, cfg.len(), &mut lp, op) else { break };
+                if got != *obs {
+                    return Some(viol(format!("C12/peek_free_replay/{}", op.kind()), *step, format!("replay without the peeks: {:?}", got), format!("with the peeks: {:?}", obs)));
+                }
+                compared = true;
+            }
+            if compared {
+                self.peek_free.fetch_add(1, std::sync::atomic::Ordering::Relaxed);
             }
         }
         None
@@ -601,6 +626,7 @@ impl<'w> Exec for Exec12<'w> {
         self.scanners.clear();
         bump_by("probe.solo_replays", self.insts.iter().filter(|i| !i.recs.is_empty()).count() as u64);
         let first = self.solo_all();
+        bump_by("probe.peek_free_replays", self.peek_free.load(std::sync::atomic::Ordering::Relaxed));
         first
     }
 }
